@@ -77,7 +77,13 @@ func TestC02Determinism(t *testing.T) {
 				t.Fatal(err)
 			}
 			ts := prev.GetHeader().GetTimestamp() + 1000000000
-			p, err := P.Produce(prev, ts, cands, coinbase)
+			// in some blocks the block-generation deadline passes while one of the candidates is being executed
+			expireDuring := -1
+			if len(cands) > 0 && rapid.IntRange(0, 3).Draw(t, "deadline") == 0 {
+				expireDuring = rapid.IntRange(0, len(cands)-1).Draw(t, "deadlineDuring")
+				classes["deadline-during-a-transaction"] = true
+			}
+			p, err := P.ProduceUntil(prev, ts, cands, coinbase, expireDuring)
 			if err != nil {
 				t.Fatalf("produce: %v", err)
 			}
